@@ -55,12 +55,12 @@ theorem DC.congr {A B : Auto} {lk : Nat → Prop} {d : Nat} (h : DC A lk d) (hs 
   rw [shape_depth (hs.2 g)] at hd
   exact h g h0 hg hd
 
-theorem foldl_linkChild_I2 {atoms : List (Nat × Atom)} {cur d : Nat} : ∀ (l : List Nat) (A : Auto) (lk : Nat → Prop),
-    I2 A atoms lk → DC A lk d → lk cur → (A.st cur).depth = d → (∀ ch ∈ l, ch ∈ (A.st cur).children) → l.Nodup →
-    (∀ ch ∈ l, ¬ lk ch) → I2 (l.foldl (linkChild cur) A) atoms (fun x => lk x ∨ x ∈ l) := by
+theorem foldl_linkChild_I2 {atoms : List (Nat × Atom)} {cur d : Nat} {pp : Nat → Prop} : ∀ (l : List Nat) (A : Auto) (lk : Nat → Prop),
+    I2 A atoms lk pp → DC A lk d → lk cur → (A.st cur).depth = d → (∀ ch ∈ l, ch ∈ (A.st cur).children) → l.Nodup →
+    (∀ ch ∈ l, ¬ lk ch) → I2 (l.foldl (linkChild cur) A) atoms (fun x => lk x ∨ x ∈ l) pp := by
   intro l
   induction l with
-  | nil => intro A lk h _ _ _ _ _ _; exact h.congr_lk (fun x => by simp)
+  | nil => intro A lk h _ _ _ _ _ _; exact h.congr_lk (fun x => by simp) (fun _ => Iff.rfl)
   | cons a l ih =>
     intro A lk h hdc hcur hd hsub hnd hnl
     rw [List.nodup_cons] at hnd
@@ -74,14 +74,19 @@ theorem foldl_linkChild_I2 {atoms : List (Nat × Atom)} {cur d : Nat} : ∀ (l :
         · exact hnl ch (List.mem_cons_of_mem _ hch) hh
         · subst hh; exact hnd.1 hch)
     rw [List.foldl_cons]
-    exact this.congr_lk (fun x => by simp [or_assoc])
+    exact this.congr_lk (fun x => by simp [or_assoc]) (fun _ => Iff.rfl)
 
-theorem linkStep_I2 {A : Auto} {atoms : List (Nat × Atom)} {lk : Nat → Prop} (h : I2 A atoms lk) {cur : Nat} (hcur : lk cur)
+theorem linkStep_I2 {A : Auto} {atoms : List (Nat × Atom)} {lk pp : Nat → Prop} (h : I2 A atoms lk pp) {cur : Nat} (hcur : lk cur)
+    (hnp : ¬ pp cur) (hdp : ∀ g, 0 < g → g < A.states.size → (A.st g).depth < (A.st cur).depth → pp g)
     (hdc : DC A lk (A.st cur).depth) (hnl : ∀ ch ∈ (A.st cur).children, ¬ lk ch) :
-    I2 (linkStep A cur) atoms (fun x => lk x ∨ x ∈ (A.st cur).children) := by
+    I2 (linkStep A cur) atoms (fun x => lk x ∨ x ∈ (A.st cur).children) (fun x => pp x ∨ x = cur) := by
   unfold linkStep
-  rw [rootFixup_noop h.ms (Or.inr hcur)]
-  exact foldl_linkChild_I2 _ A lk h hdc hcur rfl (fun _ hch => hch) (h.ms.trie.kids_nodup (h.ms.lk_range cur hcur).2) hnl
+  simp only
+  have h1 := rootFixup_I2 h hcur hnp hdp
+  have hs := rootFixup_same A cur
+  rw [shape_children (hs.2 cur)]
+  exact foldl_linkChild_I2 _ (rootFixup A cur) lk h1 (hdc.congr hs) hcur (shape_depth (hs.2 cur))
+    (fun _ hch => by rw [shape_children (hs.2 cur)]; exact hch) (h.ms.trie.kids_nodup (h.ms.lk_range cur hcur).2) hnl
 
 /-- an invariant indexed by the processed prefix survives a fold -/
 theorem foldl_inv_prefix {α β : Type} (f : β → α → β) (J : List α → β → Prop) (l : List α) :
@@ -119,6 +124,21 @@ theorem parent_before {A : Auto} (hT : Trie A) {ord pre post : List Nat} {cur : 
         have := (List.pairwise_cons.mp hs.2.1).1 p h
         omega
 
+/-- in a traversal order, a state strictly shallower than `cur` comes before it -/
+theorem before_of_depth_lt {A : Auto} {ord pre post : List Nat} {cur : Nat} (ho : OrderOK A ord) (hl : ord = pre ++ cur :: post)
+    (g : Nat) (h0 : 0 < g) (hg : g < A.states.size) (hd : (A.st g).depth < (A.st cur).depth) : g ∈ pre := by
+  have hgo : g ∈ ord := ho.complete g h0 hg
+  rw [hl] at hgo
+  rcases List.mem_append.mp hgo with h | h
+  · exact h
+  · exfalso
+    rcases List.mem_cons.mp h with h | h
+    · subst h; omega
+    · have hs := ho.sorted
+      rw [hl, List.pairwise_append] at hs
+      have := (List.pairwise_cons.mp hs.2.1).1 g h
+      omega
+
 theorem setfail_fold (l : List Nat) : ∀ (B : Auto),
     let B' := l.foldl (fun B ch => B.modify ch fun x => { x with failure := 0 }) B
     B'.pool = B.pool ∧ Same B B' ∧ ∀ j, (B'.st j).matchesRef = (B.st j).matchesRef ∧
@@ -141,16 +161,13 @@ theorem setfail_fold (l : List Nat) : ∀ (B : Auto),
     · simp [e]
 
 
-theorem ownIdx_nil_of_nonempty {atoms : List (Nat × Atom)} (hne : ∀ a ∈ atoms, a.2.bytes ≠ []) : ownIdx atoms [] = [] := by
-  apply List.eq_nil_iff_forall_not_mem.mpr
-  intro e he
-  obtain ⟨a, ha, hp⟩ := mem_ownIdx.mp he
-  exact hne a (List.mem_of_getElem? ha) hp
-
 /-- **`_yr_ac_create_failure_links`**: afterwards every non-root state's failure link is the state of the longest proper
-    suffix of its path that is a path, and its match list is its own entries followed by the failure state's list -/
-theorem createFailureLinks_I2 {A : Auto} {atoms : List (Nat × Atom)} (h : P1 A atoms) (hne : ∀ a ∈ atoms, a.2.bytes ≠ []) :
-    Same A (createFailureLinks A) ∧ I2 (createFailureLinks A) atoms (fun x => 0 < x ∧ x < A.states.size) := by
+    suffix of its path that is a path, and every state's match list is the entries of the atoms that are suffixes of its
+    path, longest first, the root's (zero-length atoms) last -/
+theorem createFailureLinks_I2 {A : Auto} {atoms : List (Nat × Atom)} (h : P1 A atoms)
+    (hbt : ∀ a ∈ atoms, a.2.bytes = [] → a.2.backtrack = 0) :
+    Same A (createFailureLinks A) ∧
+    I2 (createFailureLinks A) atoms (fun x => 0 < x ∧ x < A.states.size) (fun x => 0 < x ∧ x < A.states.size) := by
   have hT := h.trie
   -- the initial part: failure of the root and of its children := root
   let A1 := A.modify 0 fun x => { x with failure := 0 }
@@ -168,11 +185,6 @@ theorem createFailureLinks_I2 {A : Auto} {atoms : List (Nat × Atom)} (h : P1 A 
     show ((A.modify 0 fun x => { x with failure := 0 }).st j).matchesRef = _
     rw [st_modify]; split <;> simp_all
   have hpath : ∀ j, (A2.st j).path = (A.st j).path := fun j => shape_path (hsA2.2 j)
-  have hP : pathsOf A2 = pathsOf A := pathsOf_congr hsA2.1 hsA2.2
-  have hroot0 : (A.st 0).matchesRef = 0 := by
-    have := h.chains 0 hT.size_pos
-    rw [hT.root_path, ownIdx_nil_of_nonempty hne] at this
-    simpa [ChainSeg] using this
   have hfail0 : (A2.st 0).failure = 0 := by
     rw [(hst2 0).2]
     split
@@ -184,26 +196,31 @@ theorem createFailureLinks_I2 {A : Auto} {atoms : List (Nat × Atom)} (h : P1 A 
     rw [(hst2 x).2, if_pos]
     refine ⟨by rw [hk0]; exact hx, ?_⟩
     rw [hs1.1]; exact (hT.child_lt 0 hT.size_pos x hx).2
-  have hinit : I2 A2 atoms (lkOf (kids A2) []) := by
+  have hinit : I2 A2 atoms (lkOf (kids A2) []) (fun x => x ∈ ([] : List Nat)) := by
     have hlk : ∀ x, lkOf (kids A2) [] x ↔ x ∈ kids A 0 := by
       intro x; unfold lkOf; rw [hk2]; simp
-    refine ⟨⟨hT2, by rw [hpool]; exact h.pool_size, ?_, ?_, hne, by rw [href]; exact hroot0, ?_, ?_, ?_⟩, hfail0, ?_⟩
+    refine ⟨⟨hT2, by rw [hpool]; exact h.pool_size, ?_, ?_, hbt, ?_, ?_, ?_, ?_, ?_, ?_⟩, hfail0, ?_⟩
     · intro e a ha; rw [hpool]; exact h.pool_info e a ha
     · intro a ha
       obtain ⟨s, hs, hp⟩ := h.atoms_in a ha
       exact ⟨s, by rw [hsA2.1]; exact hs, by rw [hpath]; exact hp⟩
+    · rw [hpool, href]
+      have := h.chains 0 hT.size_pos
+      rw [hT.root_path] at this; exact this
+    · intro x hx; cases hx
     · intro x hx
       have := hT.child_lt 0 hT.size_pos x ((hlk x).mp hx)
       rw [hsA2.1]; exact this
-    · intro x hx
-      have hxk := (hlk x).mp hx
-      have hlt := hT.child_lt 0 hT.size_pos x hxk
-      refine ⟨0, hT2.size_pos, Or.inl rfl, ?_, ?_⟩
-      · rw [hT2.root_path, hpath, hT.child_path 0 hT.size_pos x hxk, hT.root_path]; rfl
-      · rw [hpool, href, href, hpath, hroot0]; exact h.chains x hlt.2
     · intro x h0 hx hnl
       rw [hsA2.1] at hx
       rw [hpool, href, hpath]; exact h.chains x hx
+    · intro x hx _
+      have hxk := (hlk x).mp hx
+      have hlt := hT.child_lt 0 hT.size_pos x hxk
+      refine ⟨0, by rw [hpool, href, hpath]; exact h.chains x hlt.2, Or.inr ⟨rfl, ?_⟩⟩
+      unfold RT R0
+      rw [hpath, hT.child_path 0 hT.size_pos x hxk, hT.root_path]; rfl
+    · intro x hx; cases hx
     · intro x hx
       have hxk := (hlk x).mp hx
       rw [hfailk x hxk]
@@ -219,20 +236,24 @@ theorem createFailureLinks_I2 {A : Auto} {atoms : List (Nat × Atom)} (h : P1 A 
   have hord : order (kids A2) A2.states.size (A2.st 0).children = order (kids A2) A2.states.size (kids A2 0) := rfl
   rw [hord]
   generalize hordl : order (kids A2) A2.states.size (kids A2 0) = ord at ho
-  have key := foldl_inv_prefix linkStep (fun pre B => Same A2 B ∧ I2 B atoms (lkOf (kids A2) pre)) ord ord [] A2 rfl
+  have key := foldl_inv_prefix linkStep (fun pre B => Same A2 B ∧ I2 B atoms (lkOf (kids A2) pre) (fun x => x ∈ pre)) ord ord [] A2 rfl
     ⟨Same.refl A2, hinit⟩ ?_
-  · refine ⟨hsA2.trans key.1, key.2.congr_lk ?_⟩
-    intro x
-    constructor
-    · intro hx
-      have := key.2.ms.lk_range x hx
-      rw [key.1.1, hsA2.1] at this
-      exact this
-    · intro hx
-      obtain ⟨p, hp1, hp2⟩ := hT2.has_parent x hx.1 (by rw [hsA2.1]; exact hx.2)
-      by_cases hp0 : p = 0
-      · subst hp0; exact Or.inl hp2
-      · exact Or.inr ⟨p, ho.complete p (by omega) hp1, hp2⟩
+  · refine ⟨hsA2.trans key.1, key.2.congr_lk ?_ ?_⟩
+    · intro x
+      constructor
+      · intro hx
+        have := key.2.ms.lk_range x hx
+        rw [key.1.1, hsA2.1] at this
+        exact this
+      · intro hx
+        obtain ⟨p, hp1, hp2⟩ := hT2.has_parent x hx.1 (by rw [hsA2.1]; exact hx.2)
+        by_cases hp0 : p = 0
+        · subst hp0; exact Or.inl hp2
+        · exact Or.inr ⟨p, ho.complete p (by omega) hp1, hp2⟩
+    · intro x
+      constructor
+      · intro hx; have := ho.range x hx; rw [hsA2.1] at this; exact this
+      · intro hx; exact ho.complete x hx.1 (by rw [hsA2.1]; exact hx.2)
   · intro pre cur post B hl ⟨hsB, hB⟩
     have hcm : cur ∈ ord := by rw [hl]; simp
     have hcr := ho.range cur hcm
@@ -241,6 +262,14 @@ theorem createFailureLinks_I2 {A : Auto} {atoms : List (Nat × Atom)} (h : P1 A 
       rw [shape_depth (hsB.2 cur)]
       exact DC.congr (fun g h0 hg hd => parent_before hT2 ho hl g h0 hg hd) hsB
     have hkB : (B.st cur).children = kids A2 cur := shape_children (hsB.2 cur)
+    have hnd := ho.nodup
+    rw [hl, List.nodup_append] at hnd
+    have hnp : cur ∉ pre := fun hh => hnd.2.2 cur hh cur List.mem_cons_self rfl
+    have hdp : ∀ g, 0 < g → g < B.states.size → (B.st g).depth < (B.st cur).depth → g ∈ pre := by
+      intro g h0 hg hd
+      rw [hsB.1] at hg
+      rw [shape_depth (hsB.2 g), shape_depth (hsB.2 cur)] at hd
+      exact before_of_depth_lt ho hl g h0 hg hd
     have hnl : ∀ ch ∈ (B.st cur).children, ¬ lkOf (kids A2) pre ch := by
       intro ch hch hh
       rw [hkB] at hch
@@ -250,22 +279,21 @@ theorem createFailureLinks_I2 {A : Auto} {atoms : List (Nat × Atom)} (h : P1 A 
       · have hpr := ho.range p (by rw [hl]; exact List.mem_append_left _ hp)
         have := hT2.parent_unique hpr.2 hcr.2 hh hch
         subst this
-        have hnd := ho.nodup
-        rw [hl, List.nodup_append] at hnd
-        exact hnd.2.2 p hp p List.mem_cons_self rfl
-    refine ⟨hsB.trans (linkStep_same B cur), (linkStep_I2 hB hlkc hdc hnl).congr_lk ?_⟩
-    intro x
-    rw [hkB]
-    unfold lkOf
-    constructor
-    · rintro ((h1 | ⟨p, hp, h1⟩) | h1)
-      · exact Or.inl h1
-      · exact Or.inr ⟨p, List.mem_append_left _ hp, h1⟩
-      · exact Or.inr ⟨cur, by simp, h1⟩
-    · rintro (h1 | ⟨p, hp, h1⟩)
-      · exact Or.inl (Or.inl h1)
-      · rcases List.mem_append.mp hp with hp | hp
-        · exact Or.inl (Or.inr ⟨p, hp, h1⟩)
-        · simp at hp; subst hp; exact Or.inr h1
+        exact hnp hp
+    refine ⟨hsB.trans (linkStep_same B cur), (linkStep_I2 hB hlkc hnp hdp hdc hnl).congr_lk ?_ ?_⟩
+    · intro x
+      rw [hkB]
+      unfold lkOf
+      constructor
+      · rintro ((h1 | ⟨p, hp, h1⟩) | h1)
+        · exact Or.inl h1
+        · exact Or.inr ⟨p, List.mem_append_left _ hp, h1⟩
+        · exact Or.inr ⟨cur, by simp, h1⟩
+      · rintro (h1 | ⟨p, hp, h1⟩)
+        · exact Or.inl (Or.inl h1)
+        · rcases List.mem_append.mp hp with hp | hp
+          · exact Or.inl (Or.inr ⟨p, hp, h1⟩)
+          · simp at hp; subst hp; exact Or.inr h1
+    · intro x; simp
 
 end YaraModel.AC.Build
